@@ -66,7 +66,7 @@ EW2 = {
 
 
 class Node:
-    __slots__ = ("i", "kind", "parents", "params", "val", "const", "severed", "nondiff", "opaque")
+    __slots__ = ("i", "kind", "parents", "params", "val", "const", "severed", "nondiff", "opaque", "born", "severed_at")
 
     def __init__(self, i, kind, parents, params, val, const):
         self.i = i
@@ -76,6 +76,8 @@ class Node:
         self.val = val
         self.const = const
         self.severed = False
+        self.born = 0
+        self.severed_at = -1
         self.nondiff = False  # a point where the derivative does not exist was hit at this node
         self.opaque = False  # the tape has no VJP for this node: nothing upstream of it is judged
 
@@ -87,12 +89,14 @@ class TapeError(Exception):
 class Tape:
     def __init__(self):
         self.nodes = []
+        self.clock = 0  # set by the world: epoch counter
 
     # ------------------------------------------------------------------ construction
     def _add(self, kind, parents, params, const):
         vals = [self.nodes[p].val for p in parents]
         val = self._forward(kind, vals, params)
         n = Node(len(self.nodes), kind, tuple(parents), params, val, const)
+        n.born = self.clock
         n.nondiff = self._is_nondiff(kind, vals, params, val)
         self.nodes.append(n)
         return n.i
@@ -100,12 +104,14 @@ class Tape:
     def leaf(self, val, const):
         v = np.array(val, dtype=np.float64)
         n = Node(len(self.nodes), "leaf", (), None, v, bool(const))
+        n.born = self.clock
         self.nodes.append(n)
         return n.i
 
     def opaque(self, val, parents, const):
         v = np.array(val, dtype=np.float64)
         n = Node(len(self.nodes), "opaque", tuple(parents), None, v, bool(const))
+        n.born = self.clock
         n.opaque = True
         self.nodes.append(n)
         return n.i
@@ -380,10 +386,37 @@ class Tape:
             seen.add(i)
             n = self.nodes[i]
             if n.severed:
+                n.severed_at = self.clock  # cleared again (e.g. a leaf shared by two graphs)
                 continue
             n.severed = True
+            n.severed_at = self.clock
             stack.extend(n.parents)
         return seen
+
+    def tainted(self, root):
+        """the recorded graph above `root` was partially cleared after it was recorded: some node
+        on a live path has a parent that was severed after the child was created"""
+        seen = set()
+        stack = [root]
+        while stack:
+            i = stack.pop()
+            if i in seen:
+                continue
+            seen.add(i)
+            n = self.nodes[i]
+            if n.severed and i != root:
+                continue
+            if n.severed and i == root:
+                # the root itself was cleared (e.g. backward twice): nothing above it is live
+                continue
+            for p in n.parents:
+                q = self.nodes[p]
+                if q.severed:
+                    if q.severed_at > n.born:
+                        return True
+                else:
+                    stack.append(p)
+        return False
 
     def backward(self, root, seed=None):
         """returns (cot: dict node->array, info) where only non-constant nodes reached from root
